@@ -108,6 +108,197 @@ def string_formulas(env):
     return out
 
 
+# ----------------------------------------------------------------------------- indexed operators
+IDX_WIDTHS = (8, 64, 102, 128, 257, 1000)
+
+
+def colliding_extracts(w, limit=6):
+    """Groups of valid (hi, lo) pairs for width w whose decimal texts coincide when concatenated
+    without a separator, e.g. (101, 0) and (10, 10)."""
+    groups = {}
+    for hi in range(w):
+        shi = str(hi)
+        for lo in ([0, 1, 2, 3, 10, 11, 12, 23, hi] + [x for x in (100, 101, 110, 111) if x <= hi]):
+            if lo <= hi:
+                groups.setdefault(shi + str(lo), set()).add((hi, lo))
+    out = [sorted(g) for g in groups.values() if len(g) >= 2]
+    out.sort(key=lambda g: (-len(g), g))
+    return out[:limit]
+
+
+def indexed_formulas(env, rnd):
+    """Formulas with 2-4 DIFFERENT indexed operators of the same kind in one text, at small and
+    large widths, with index tuples chosen so that sloppy keys (digits concatenated, sums, swapped
+    indices) coincide.  Every formula must be read back as the same object."""
+    from pysmt.typing import BVType
+    m = env.formula_manager
+    out = []
+    for w in IDX_WIDTHS:
+        x, y = m.Symbol("x%d" % w, BVType(w)), m.Symbol("y%d" % w, BVType(w))
+        # extract: colliding digit strings, swapped / shifted pairs, equal sums
+        groups = colliding_extracts(w)
+        pairs_sets = [g[:4] for g in groups]
+        pairs_sets.append([(3, 1), (1, 1), (3, 3), (2, 2)])
+        pairs_sets.append([(w - 1, 0), (w - 1, 1), (w - 2, 0), (w - 1, w - 1)])
+        if w > 30:
+            pairs_sets.append([(21, 3), (12, 3), (23, 1), (13, 2)])           # permuted digits / equal digit sums
+            pairs_sets.append([(20, 10), (10, 0), (30, 20), (15, 5)])         # equal sizes, equal differences
+        for ps in pairs_sets:
+            ps = [p for p in ps if p[0] < w]
+            if len(ps) < 2:
+                continue
+            parts = [m.BVExtract(x, lo, hi) for hi, lo in ps]
+            # one Boolean formula mentioning all of them: pairwise size-compatible comparisons via zero-extension to w
+            atoms = [m.Equals(m.BVZExt(p, w - p.bv_width()), y) for p in parts]
+            out.append(m.And(atoms))
+            same = {}
+            for p in parts:
+                same.setdefault(p.bv_width(), []).append(p)
+            for lst in same.values():
+                if len(lst) >= 2:
+                    out.append(m.Not(m.Equals(lst[0], lst[1])))
+                    out.append(m.ForAll([x], m.Or([m.BVULT(lst[0], q) for q in lst[1:]])))
+        # single-index operators: several different indices of the same operator in one formula
+        ks = [1, 10, 11, 101, 110, 2, 12, 21] if w > 8 else [1, 2, 3, 7]
+        ks = [k for k in ks if k < w]
+        sel = rnd.sample(ks, min(4, len(ks)))
+        out.append(m.And([m.Equals(m.BVRol(x, k), m.BVRor(y, k2)) for k, k2 in zip(sel, reversed(sel))]))
+        out.append(m.Or([m.BVULT(m.BVRol(x, k), m.BVRol(y, k + 1 if k + 1 < w else 0)) for k in sel]))
+        z = m.Symbol("z%d" % w, BVType(8))
+        exts = [1, 10, 11, 101, 2, 12]
+        big = m.Symbol("b%d" % w, BVType(8 + max(exts)))
+        out.append(m.And([m.Equals(m.BVZExt(m.BVZExt(z, k), max(exts) - k), big) for k in exts[:4]]))
+        out.append(m.And([m.Equals(m.BVSExt(m.BVZExt(z, max(exts) - k), k), big) for k in exts[2:]]))
+        out.append(m.Exists([z], m.Or([m.BVSLT(m.BVSExt(z, k), m.BVZExt(z, k)) for k in (1, 11, 10, 101)])))
+        # repeat is printed through concat: widths 8k
+        out.append(m.Equals(m.BVRepeat(z, 3), m.BVConcat(m.BVRepeat(z, 2), z)))
+        # sorts (_ BitVec w) of several widths in one binder list, constants of those widths
+        xs = [m.Symbol("q%d_%d" % (w, v), BVType(v)) for v in (1, 10, 11, 101, 110) if v <= w + 9]
+        out.append(m.ForAll(xs, m.Or([m.Equals(q, m.BV(1 if q.bv_width() > 1 else 0, q.bv_width())) for q in xs])))
+    return out
+
+
+# ----------------------------------------------------------------------------- scripts with state across commands
+def shared_term(m, leaves, sk, depth):
+    """A Boolean term with enough sharing for depth+1 let-definitions that uses the symbol sk at every
+    level (inside the scope of each let of the DAG printer)."""
+    t = sk
+    for j in range(depth + 1):
+        a = leaves[j % len(leaves)]
+        inner = m.Or(t, a)
+        t = m.And(inner, m.Or(sk, leaves[(j + 1) % len(leaves)]), m.Implies(inner, sk))
+    return t
+
+
+def script_objects(env, rnd, count):
+    """SmtLibScript objects whose commands have DIFFERENT free-symbol sets, sorts and definitions, so
+    that whatever a printer or a parser keeps from command i is wrong for command i+1."""
+    from pysmt.typing import BOOL, INT, BVType, FunctionType
+    m = env.formula_manager
+    a, b, c = [m.Symbol(n, BOOL) for n in ("a", "b", "c")]
+    i, j = m.Symbol("i", INT), m.Symbol("j", INT)
+    defs = [m.Symbol(".def_%d" % k, BOOL) for k in range(6)]
+    idefs = [m.Symbol(".def_%d" % k, INT) for k in range(6, 9)]
+    bv = [m.Symbol("v%d" % w, BVType(w)) for w in (8, 102)]
+    out = []
+
+    def mk(cmds):
+        sc = SmtLibScript()
+        declared = set()
+        for kind, arg in cmds:
+            if kind == "assert":
+                for t in env.typeso.get_types(arg, custom_only=True):
+                    pass
+                for s in sorted(env.fvo.get_free_variables(arg), key=lambda x: x.node_id()):
+                    if s not in declared:
+                        declared.add(s)
+                        sc.add(name=smtcmd.DECLARE_FUN, args=[s])
+                sc.add(name=smtcmd.ASSERT, args=[arg])
+            elif kind == "get-value":
+                sc.add(name=smtcmd.GET_VALUE, args=list(arg))
+            else:
+                sc.add(name=kind, args=list(arg))
+        return sc
+
+    first_terms = [m.And(m.Or(a, b), m.Implies(m.Or(a, b), c), m.Iff(m.Or(a, b), a)),
+                   m.Or(m.And(a, b), m.Not(m.And(a, b))),
+                   m.LE(m.Plus(i, j), m.Times(m.Int(2), m.Plus(i, j)))]
+    # directed: the symbol .def_k appears first in the 2nd / 3rd command and is used inside the k-th let
+    for k in range(6):
+        for t1 in first_terms[:2]:
+            t2 = shared_term(m, [a, b, c], defs[k], k)
+            out.append(("dag-let-name-k%d" % k, mk([("assert", t1), ("assert", t2), ("check-sat", [])])))
+            out.append(("dag-let-name-k%d-third" % k, mk([("assert", t1), ("push", [1]), ("assert", m.Or(a, c)),
+                                                          ("assert", m.And(m.Or(defs[k], a), m.Or(defs[k], b))),
+                                                          ("pop", [1]), ("assert", t2)])))
+    out.append(("dag-int-let-names", mk([("assert", first_terms[2]),
+                                         ("assert", m.Equals(m.Plus(m.Times(idefs[0], m.Plus(i, idefs[1])), m.Plus(i, idefs[1])),
+                                                             m.Minus(m.Times(idefs[0], m.Plus(i, idefs[1])), idefs[2])))])))
+    out.append(("indexed-across-commands", mk([("assert", m.Equals(m.BVExtract(bv[1], 10, 10), m.BV(1, 1))),
+                                                ("assert", m.Equals(m.BVExtract(bv[1], 0, 101), bv[1])),
+                                                ("assert", m.Equals(m.BVZExt(bv[0], 94), m.BVRol(bv[1], 10))),
+                                                ("get-value", [m.BVExtract(bv[1], 1, 11), m.BVExtract(bv[1], 11, 11)])])))
+    # random: every command draws its symbols from a different subset
+    pool = [a, b, c] + defs
+    for n in range(count):
+        cmds = []
+        for _ in range(rnd.randint(2, 5)):
+            syms = rnd.sample(pool, rnd.randint(2, 4))
+            sk = rnd.choice(syms)
+            t = shared_term(m, [s for s in syms if s is not sk] or [a], sk, rnd.randint(0, 3))
+            if rnd.random() < 0.3:
+                t = m.Not(t)
+            r = rnd.random()
+            if r < 0.15:
+                cmds.append(("push", [1]))
+            cmds.append(("assert", t))
+            if r > 0.85:
+                cmds.append(("get-value", syms[:2]))
+        out.append(("random-multi-command", mk(cmds)))
+    return out
+
+
+def object_script_roundtrip(chk, env, tag, sc, dag, stats):
+    """serialize(script) with ONE printer for all commands, parse it back in the same environment and
+    compare command by command: identity of the terms, then meaning."""
+    try:
+        buf = io.StringIO()
+        with warnings.catch_warnings():
+            warnings.simplefilter("ignore")
+            sc.serialize(buf, daggify=dag)
+        text = buf.getvalue()
+    except Exception as ex:  # noqa
+        chk.violation({"kind": "input", "what": "serialising a script failed: %r" % (ex,), "shape": tag}, key="script-object:serialize-error:" + type(ex).__name__)
+        return
+    stats["object_scripts"] = stats.get("object_scripts", 0) + 1
+    try:
+        sc2 = parse_in(env, text)
+    except Exception as ex:  # noqa
+        chk.violation({"kind": "input", "what": "the serialisation of a script is rejected by the parser: %s: %s" % (type(ex).__name__, str(ex)[:200]),
+                       "serialised": text[:4000], "shape": tag, "daggify": dag}, key="script-object:reparse-error:%s:%s" % (tag.split("-k")[0], type(ex).__name__))
+        return
+    c1, c2 = list(sc.commands), list(sc2.commands)
+    if len(c1) != len(c2) or any(x.name != y.name for x, y in zip(c1, c2)):
+        chk.violation({"kind": "input", "what": "parse(serialize(script)) has different commands", "serialised": text[:4000], "shape": tag,
+                       "daggify": dag}, key="script-object:commands:" + tag.split("-k")[0])
+        return
+    for n, (x, y) in enumerate(zip(c1, c2)):
+        fx = [t for t in x.args if isinstance(t, FNode)]
+        fy = [t for t in y.args if isinstance(t, FNode)]
+        if len(fx) != len(fy):
+            continue
+        for p, q in zip(fx, fy):
+            if p is q:
+                continue
+            why = same_meaning(p, q, chk.seed, n=6)
+            stats["object_script_failures"] = stats.get("object_script_failures", 0) + 1
+            chk.violation({"kind": "input", "what": "command %d (%s) of parse(serialize(script)) is not the term that was serialised%s"
+                                                     % (n, x.name, "; the MEANING differs: " + why if why else " (same meaning on the sampled interpretations)"),
+                           "term": p.serialize()[:1500], "parsed_back": q.serialize()[:1500], "serialised": text[:4000], "shape": tag, "daggify": dag},
+                          key="script-object:%s:%s" % ("meaning" if why else "identity", tag.split("-k")[0]))
+            return
+
+
 # ----------------------------------------------------------------------------- scripts
 def cmd_key(c, rename):
     def k(a):
@@ -283,13 +474,16 @@ def run(tier):
     n = 400 if tier == "quick" else 5000
     cases, hr_cases = [], []
     env = g = None
-    senv = Environment()
-    special = string_formulas(senv)
-    stats["string_constant_formulas"] = len(special)
+    senv, ienv = Environment(), Environment()
+    idx = indexed_formulas(ienv, rnd)
+    strs = string_formulas(senv)
+    special = [(ienv, f) for f in idx] + [(senv, f) for f in strs]
+    stats["string_constant_formulas"] = len(strs)
+    stats["indexed_operator_formulas"] = len(idx)
     for i0 in range(n + len(special)):
         i = i0 - len(special)
         if i < 0:
-            env, f = senv, special[i0]
+            env, f = special[i0]
         else:
             if i % 50 == 0:
                 env = Environment()
@@ -340,7 +534,7 @@ def run(tier):
                                "operators_lost": culprit},
                               key="roundtrip:" + ("+".join(culprit) if culprit else hashlib.md5(text.encode()).hexdigest()[:10]))
         ascii_strings = all(ord(ch) < 128 for v in string_constants(f) for ch in v)       # the Coq models are byte-level
-        if all(b is not None and isinstance(b, FNode) for b in backs) and ascii_strings and len(cases) < (400 if tier == "quick" else 3000):
+        if all(b is not None and isinstance(b, FNode) for b in backs) and ascii_strings and len(cases) < (560 if tier == "quick" else 3000):
             cases.append((f, backs[0], backs[1]))
         hr_check(chk, env, f, stats)
         if not has_array_value(f) and len(hr_cases) < (300 if tier == "quick" else 3000):
@@ -358,6 +552,12 @@ def run(tier):
         for dag in (False, True):
             script_roundtrip(chk, t, dag, stats)
             chk.count(("c09s", t, dag))
+    # ---- scripts built from formulas: one printer / one parser for all commands
+    oenv = Environment()
+    for tag, sc in script_objects(oenv, rnd, 60 if tier == "quick" else 1500):
+        for dag in (True, False):
+            object_script_roundtrip(chk, oenv, tag, sc, dag, stats)
+            chk.count(("c09o", tag, stats.get("object_scripts", 0)))
     # ---- the composition of the two models against the implementation
     files = []
     shard = 25
